@@ -32,6 +32,7 @@ for sid in sorted(os.listdir(os.path.join(root, "seeded"))):
         "checks_run_against_it": {
             "how": "tools/evalmut.sh %s <property> <seed>: the registered quick command with VERIF_REPO pointing at a scratch worktree of /repo (HEAD %s) with patch.diff applied; /repo itself untouched" % (sid, head),
             "runs": runs,
+            "note": "runs are listed in chronological order; generator shapes and the replay tier of saved inputs were extended between runs, so an earlier 'no violation' followed by a later 'VIOLATION reported' for the same check shows what the extension bought; the last run per check was made with (nearly) the committed harness",
         },
     }
     json.dump(meta, open(os.path.join(d, "meta.json"), "w"), indent=1)
